@@ -1,3 +1,2 @@
-PROXY_WRAP := -Wl,--wrap=select,--wrap=accept,--wrap=send,--wrap=time,--wrap=alarm
 HLINK_PROXYENV := $(PROXY_WRAP)
 HDEPS_PROXYENV := harness/proxyd_env.h
